@@ -217,7 +217,13 @@ def r2(ctx):
     ok_dir = loopvar == dirvar
     if not ok_dir:
         # the directory is itself part of the record: committed in the same block from the loop variable
-        ok_dir = any(isinstance(s_, ast.Assign) and U(s_.targets[0]) == dirvar and U(s_.value) == loopvar for s_ in body[lo:hi + 1]) \
+        # (a plain copy of the loop variable made at the top of the loop body counts as the loop variable)
+        copies = {loopvar}
+        for s_ in inner.body:
+            if isinstance(s_, ast.Assign) and len(s_.targets) == 1 and isinstance(s_.targets[0], ast.Name) and isinstance(s_.value, ast.Name) and s_.value.id in copies \
+                    and sum(1 for x in walk_own(inner) if isinstance(x, ast.Name) and x.id == s_.targets[0].id and isinstance(x.ctx, ast.Store)) == 1:
+                copies.add(s_.targets[0].id)
+        ok_dir = any(isinstance(s_, ast.Assign) and U(s_.targets[0]) == dirvar and U(s_.value) in copies for s_ in body[lo:hi + 1]) \
             and len([n for n in walk_own(f.node) if isinstance(n, ast.Assign) and U(n.targets[0]) == dirvar and not (isinstance(n.value, ast.Constant) and n.value.value is None)]) == 1
     ctx.check("R2", f"{f.site()}::screen-directory-is-committed-directory", ok_dir,
               f"the screen is read from `{dirvar}`, the loop variable of the loop that commits the record",
